@@ -262,3 +262,48 @@ impl PacketBuilder {
         }
     }
 }
+
+/// Verification hook: plain copy of every `PacketBuilder` field.
+#[cfg(feature = "verif-hooks")]
+#[derive(Debug, Clone, PartialEq, Eq, Hash)]
+pub struct VerifPacketBuilderState {
+    /// 0 = FixedHeader, 1 = RemainingLength, 2 = Payload
+    pub state: u8,
+    pub header_buf: Vec<u8>,
+    pub remaining_length: usize,
+    pub multiplier: u32,
+    pub raw_buf: Option<Vec<u8>>,
+    pub raw_buf_offset: usize,
+}
+
+#[cfg(feature = "verif-hooks")]
+impl PacketBuilder {
+    pub fn verif_state(&self) -> VerifPacketBuilderState {
+        VerifPacketBuilderState {
+            state: match self.state {
+                ReadState::FixedHeader => 0,
+                ReadState::RemainingLength => 1,
+                ReadState::Payload => 2,
+            },
+            header_buf: self.header_buf.clone(),
+            remaining_length: self.remaining_length,
+            multiplier: self.multiplier,
+            raw_buf: self.raw_buf.clone(),
+            raw_buf_offset: self.raw_buf_offset,
+        }
+    }
+}
+
+#[cfg(feature = "verif-hooks")]
+impl Clone for PacketBuilder {
+    fn clone(&self) -> Self {
+        Self {
+            state: self.state,
+            header_buf: self.header_buf.clone(),
+            remaining_length: self.remaining_length,
+            multiplier: self.multiplier,
+            raw_buf: self.raw_buf.clone(),
+            raw_buf_offset: self.raw_buf_offset,
+        }
+    }
+}
